@@ -237,3 +237,25 @@ def nonlocal_programs():
                       Try([_mark('T'), call, cond], 'undo', [_mark('U')])]
             main = Func('@is_you', [('v', Arr(INT, True), False)], EMPTY, [_mark('<')] + st + [_mark('>'), _mark('!')])
             yield f'nonlocal/{sn}/{caller}', Program([], [main] + funcs)
+    # value-returning preemptive defeat functions whose RETURN EXPRESSION itself calls defeat functions: defeat reached while
+    # the expression is evaluated is ordinary defeat; only the completed return is subject to the return-boundary rule
+    leaf = Func('!leaf', [('k', INT, False)], INT, [_mark('l'), ExprStmt(Call('!truth_is_defeat', [Bin('==', K, Lit(INT, 1))])), Ret(Bin('+', K, Lit(INT, 1)))])
+    for rs in ('leaf_call', 'recursive', 'sum_of_calls', 'call_in_condition_then_plain_return', 'not_preemptive'):
+        pre_st = [] if rs == 'not_preemptive' else [pre()]
+        if rs in ('leaf_call', 'not_preemptive'):
+            body = [_mark('d')] + pre_st + [Ret(Bin('*', Call(leaf, [K]), Lit(INT, 2)))]
+        elif rs == 'recursive':
+            body = [_mark('d')] + pre_st + [If(Bin('<=', K, Lit(INT, 0)), [Ret(Lit(INT, 0))]), If(Bin('==', K, Lit(INT, 1)), [Ret(Call(leaf, [K]))]),
+                                           Ret(Bin('+', Call('!dfv', [Bin('-', K, Lit(INT, 2))], t=INT), Lit(INT, 1)))]
+        elif rs == 'sum_of_calls':
+            body = [_mark('d')] + pre_st + [Ret(Bin('+', Call(leaf, [Lit(INT, 5)]), Call(leaf, [K])))]
+        else:
+            body = [_mark('d')] + pre_st + [If(Bin('>', Call(leaf, [K]), Lit(INT, 3)), [_mark('g')]), Ret(K)]
+        dfv = Func('!dfv', [('k', INT, False)], INT, body)
+        for caller in ('undo', 'stop', 'undo_then_defeat', 'stop_then_defeat'):
+            call = W(Call(dfv, [arg(0)]))
+            cond = ExprStmt(Call('!truth_is_defeat', [Bin('==', arg(1), Lit(INT, 1))]))
+            kind = 'undo' if caller.startswith('undo') else 'stop'
+            tb = [_mark('t'), call] + ([cond] if caller.endswith('defeat') else []) + [_mark('f')]
+            main = Func('@is_you', [('v', Arr(INT, True), False)], EMPTY, [_mark('<'), Try(tb, kind, [_mark(kind[0])]), _mark('>'), _mark('!')])
+            yield f'nonlocal/return_expr_{rs}/{caller}', Program([], [main, dfv, leaf])
